@@ -34,7 +34,7 @@ ASSUMPTIONS = [
     "exceptions raised inside datagram_received reach the event loop's exception handler, as with asyncio's selector "
     "datagram transport (reproduced by the simulated transport: delivery runs inside a loop callback)",
 ]
-PROBES = ["two_listeners", "foreign_community", "truncated", "garbage", "wrong_outer_tag", "bitflip", "other_version", "dup_arrival", "lost",
+PROBES = ["notification_over_1024_octets", "foreign_community_with_non_ascii_octets", "first_datagram_other_version", "two_listeners", "foreign_community", "truncated", "garbage", "wrong_outer_tag", "bitflip", "other_version", "dup_arrival", "lost",
           "reordered", "bad_then_valid", "callback_raises", "slow_callback_overlap", "zero_payload", "eight_payload",
           "long_length_forms", "every_value_kind", "duplicate_payload_oid", "four_emitters", "ipv6_peers",
           "indefinite_no_eoc_reached"]
@@ -78,6 +78,11 @@ def plan_for(tier: str, seed: int, i: int) -> dict:
                 continue
             used.add(o)
             payload.append((o, gen.gen_value(rng, kind=rng.choice(KINDS), max_str=40)))
+        xr = rng_for(seed, ID, tier + ":big", i * 64 + n)
+        if xr.random() < 0.06:
+            # a notification larger than 1 kB (a log excerpt, a long description)
+            big = bytes(xr.getrandbits(8) for _ in range(xr.choice([1100, 2000, 3000])))
+            payload.append(((1, 3, 6, 1, 4, 1, 8072, 2, 3, 2, 9, n), ("str", big)))
         d = {"n": n, "t": t, "emitter": rng.randrange(n_em), "listener": li, "cls": cls,
              "uptime": 100000 + n * 7919, "trap_oid": (1, 3, 6, 1, 4, 1, 8072, 2, 3, 0, 1 + n % 5),
              "payload": payload, "rid": rng.choice([0, 1, 2**31 - 1, -(2**31), rng.randrange(-2**31, 2**31)]),
@@ -134,7 +139,8 @@ def build(plan: dict, d: dict) -> Tuple[bytes, Optional[list]]:
         vbs[1] = (TRAPOID, ("oid", (1, 3, 6, 1, 4, 1, 99, 99, 99, 99)))  # base never sent unflipped
     pdu = S.mkpdu(S.PDU_TRAP2, d["rid"], vbs)
     if cls == "foreign":
-        other = [b"", comm + b"x", comm[:-1], comm.upper() if comm.upper() != comm else b"zz", b"private-" + comm]
+        other = [b"", comm + b"x", comm[:-1], comm.upper() if comm.upper() != comm else b"zz", b"private-" + comm,
+                 comm + b"\xe9", b"\xc3\xbc" + comm, comm[:3] + b"\xa0" + comm[3:], comm + b"\x00"]
         comm = other[d["param"] % len(other)]
     version = 1
     if cls == "version":
@@ -336,6 +342,9 @@ def execute(plan: dict) -> dict:
                                                      for x in arr_cls[:k]) for k, c in enumerate(arr_cls))
     kinds_seen = set(v[0] for r in records if r["cls"] == "valid" for _, v in r["vbs"][2:])
     probes = {
+        "notification_over_1024_octets": int(any(a["cls"] == "valid" and len(a["raw"]) > 1024 for a in arrivals)),
+        "foreign_community_with_non_ascii_octets": int(any(d["cls"] == "foreign" and d["param"] % 9 in (5, 6, 7) for d in plan["datagrams"])),
+        "first_datagram_other_version": int(bool(arrivals) and arrivals[0]["cls"] == "version"),
         "two_listeners": int(len(plan["listeners"]) > 1), "foreign_community": int("foreign" in arr_cls),
         "truncated": int("truncated" in arr_cls), "garbage": int("garbage" in arr_cls), "bitflip": int("bitflip" in arr_cls),
         "wrong_outer_tag": int("badtag" in arr_cls),
